@@ -255,7 +255,9 @@ def _is_first_by_tie_order(ctx, bt, expr, tied):
 def _plainly_other_choice(expr, tied):
     """an element picked from the tied list by position, by another order, or at random"""
     if isinstance(expr, ast.Subscript):
-        return True
+        # tied[0], byVote(tied)[-1] ...: a positional pick; a pick from a list filtered on identity (`[c for c in tied if c.cid == x.cid][0]`)
+        # is the member singled out by something else - not judged here
+        return not isinstance(expr.value, (ast.ListComp, ast.GeneratorExp))
     if isinstance(expr, ast.Call):
         nm = expr.func.attr if isinstance(expr.func, ast.Attribute) else (expr.func.id if isinstance(expr.func, ast.Name) else '')
         return nm in ('pop', 'choice', 'min', 'max', 'sorted', 'byVote', 'byBallotOrder', 'byCid', 'sample', 'shuffle')
@@ -266,14 +268,18 @@ def _plainly_other_choice(expr, tied):
 # R16
 # ---------------------------------------------------------------------------
 
-def extremum_info(ctx, f, name, at):
+def extremum_info(ctx, f, name, at, comp_node=None):
     """`name = [c for c in SRC if c.K == m]` (or Meek's `(m + E.surplus) >= c.K`) with
     `m = min|max|V.min(c.K for c in SRC)`; returns dict(kind, key, src, within) or None"""
     cfg = cfg_of(f)
-    rd = reaching_defs(cfg, name, at)
-    if len(rd) != 1 or rd[0] is cfg.entry or not isinstance(rd[0].ast, ast.Assign):
-        return None
-    comp = rd[0].ast.value
+    if comp_node is not None:
+        comp = comp_node            # the tied set written in place as the argument
+        rd = [at]
+    else:
+        rd = reaching_defs(cfg, name, at)
+        if len(rd) != 1 or rd[0] is cfg.entry or not isinstance(rd[0].ast, ast.Assign):
+            return None
+        comp = rd[0].ast.value
     if not (isinstance(comp, ast.ListComp) and len(comp.generators) == 1 and len(comp.generators[0].ifs) == 1
             and isinstance(comp.elt, ast.Name) and isinstance(comp.generators[0].target, ast.Name)
             and comp.elt.id == comp.generators[0].target.id):
@@ -346,7 +352,8 @@ def r16_extremum_polarity(ctx):
                     if at in reaching_defs(cfg, res, n2):
                         uses.add(c2.func.attr)
             need(uses, 'result of breakTie at %s is never elected/defeated/un-pended' % ctx.repo.loc(call))
-            info = extremum_info(ctx, f, arg.id, at) if isinstance(arg, ast.Name) else None
+            info = extremum_info(ctx, f, arg.id, at) if isinstance(arg, ast.Name) else (
+                extremum_info(ctx, f, None, at, comp_node=arg) if isinstance(arg, ast.ListComp) else None)
             for u in sorted(uses):
                 if u == 'defeat':
                     nlow += 1
@@ -354,7 +361,7 @@ def r16_extremum_polarity(ctx):
                     ok = info is not None and info['kind'] == 'min' and info['states'] == frozenset(['hopeful'])
                     if ok and info['within'] and ri.method != 'meek':
                         ok = False
-                    how = ('`%s` is the arg-min set of .%s over %s%s' % (arg.id, info['key'], info['src'], ' (within the total surplus)' if info['within'] else '')) if info else ''
+                    how = ('`%s` is the arg-min set of .%s over %s%s' % (unparse(arg)[:40], info['key'], info['src'], ' (within the total surplus)' if info['within'] else '')) if info else ''
                     ctx.check(ok, R, call, f, what, how,
                               'the tied set `%s` handed to breakTie for a defeat is not `[c for c in C.hopeful() if c.K == min(c.K ...)]`%s'
                               % (unparse(arg), (' (found: %s of %s over %s)' % (info['kind'], info['key'], info['src'])) if info else ''))
@@ -363,7 +370,7 @@ def r16_extremum_polarity(ctx):
                     what = 'the surplus transferred (or candidate elected) first is chosen among those with the highest tally'
                     want_states = frozenset(['pending']) if u == 'unpend' else frozenset(['hopeful'])
                     ok = info is not None and info['kind'] == 'max' and info['states'] == want_states and not info['within']
-                    how = ('`%s` is the arg-max set of .%s over %s' % (arg.id, info['key'], info['src'])) if info else ''
+                    how = ('`%s` is the arg-max set of .%s over %s' % (unparse(arg)[:40], info['key'], info['src'])) if info else ''
                     ctx.check(ok, R, call, f, what, how,
                               'the tied set `%s` handed to breakTie for %s is not the arg-max set over %s%s'
                               % (unparse(arg), u, '|'.join(want_states), (' (found: %s of %s over %s)' % (info['kind'], info['key'], info['src'])) if info else ''))
